@@ -682,6 +682,34 @@ impl<'a> Gen<'a> {
                 None => f,
             };
         }
+        // the recursion sits inside a `new` scope of a stream (or stream map) and the same name is written
+        // after the scope: the scopes of the outer iterations are still open at the first global write
+        if self.cfg.streams && !self.streams.is_empty() && self.rng.chance(1, 10) {
+            let (s, _) = self.rng.pick(&self.streams).clone();
+            let inner = Ins::Ap { arg: Val::Lit("scoped".into()), out: Out::Stream(s.clone()) };
+            let after = Ins::Ap { arg: Val::Var(it.clone()), out: Out::Stream(s.clone()) };
+            self.iters.pop();
+            self.scope.truncate(mark);
+            let shaped = seq(Ins::New(s, Box::new(seq(seq(inner, body), nx))), after);
+            let f = Ins::Fold { iterable: Val::Var(arr.name), it, body: Box::new(shaped), last: None };
+            return match pre {
+                Some(p) => seq(p, f),
+                None => f,
+            };
+        }
+        if self.cfg.maps && !self.maps.is_empty() && self.rng.chance(1, 12) {
+            let m = self.rng.pick(&self.maps).clone();
+            let inner = Ins::ApMap { key: Val::Lit("scoped".into()), value: Val::Int(1), map: m.clone() };
+            let after = Ins::ApMap { key: Val::Lit("after".into()), value: Val::Var(it.clone()), map: m.clone() };
+            self.iters.pop();
+            self.scope.truncate(mark);
+            let shaped = seq(Ins::New(m, Box::new(seq(seq(inner, body), nx))), after);
+            let f = Ins::Fold { iterable: Val::Var(arr.name), it, body: Box::new(shaped), last: None };
+            return match pre {
+                Some(p) => seq(p, f),
+                None => f,
+            };
+        }
         let shaped = match shape {
             0..=4 => seq(body, nx),
             5..=7 if no_par => seq(body, nx),
